@@ -25,7 +25,13 @@ import (
 // test (an item the current tree rejects is dropped, so a change to the grammars
 // cannot turn into a false alarm here).
 
+// a deepShape builds one item in which a long run of tokens is shifted with no reduction
+// in between: open+sep repeated, a core, close+sep repeated. sep is a reported comment,
+// so that every shift still produces a listener event (progress stays observable).
+type deepShape struct{ head, open, sep, core, close, tail string }
+
 type corpus struct {
+	deep     []deepShape
 	prologue string
 	items    []string
 	toks     []int
@@ -49,9 +55,65 @@ func (c *corpus) gen(src *sim.Src, ntok, brk int) (string, []itemSpan) {
 	if brk == 2 {
 		period = 4 + src.Draw(60)
 	}
+	// phase sweep: one item repeated behind 0..15 copies of the shortest item, so that the
+	// parser's shift counter meets the repeated item at every phase (a poll period that
+	// locks onto a particular token of a periodic input shows only then)
+	phase := -1
+	if brk == 0 && src.Chance(1, 8) {
+		subset = []int{src.Draw(len(c.items))}
+		phase = src.Draw(16)
+	}
 	f := src.Fork()
 	var spans []itemSpan
 	var damaged []int
+	if phase > 0 {
+		short := 0
+		for i := range c.items {
+			if c.toks[i] > 0 && (c.toks[short] == 0 || c.toks[i] < c.toks[short]) {
+				short = i
+			}
+		}
+		for k := 0; k < phase; k++ {
+			off := b.Len()
+			b.WriteString(c.items[short])
+			spans = append(spans, itemSpan{off: off, end: b.Len(), toks: c.toks[short], intact: true})
+			b.WriteString(c.sep)
+		}
+	}
+	if len(c.deep) > 0 && brk == 0 && src.Chance(1, 7) {
+		// one deeply nested item carrying most of the token budget
+		d := c.deep[src.Draw(len(c.deep))]
+		depth := ntok / 2
+		if d.close == "" {
+			depth = ntok
+		}
+		var db strings.Builder
+		db.WriteString(d.head)
+		for i := 0; i < depth; i++ {
+			db.WriteString(d.open)
+			db.WriteString(d.sep)
+		}
+		db.WriteString(d.core)
+		for i := 0; i < depth; i++ {
+			db.WriteString(d.close)
+			if d.close != "" {
+				db.WriteString(d.sep)
+			}
+		}
+		db.WriteString(d.tail)
+		for k := 0; k < 3; k++ {
+			b.WriteString(c.items[f.Draw(len(c.items))])
+			b.WriteString(c.sep)
+		}
+		b.WriteString(db.String())
+		b.WriteString(c.sep)
+		for k := 0; k < 3; k++ {
+			b.WriteString(c.items[f.Draw(len(c.items))])
+			b.WriteString(c.sep)
+		}
+		b.WriteString(c.epilogue)
+		return b.String(), nil
+	}
 	for n < ntok {
 		var i int
 		if subset != nil {
@@ -132,6 +194,19 @@ func (c *corpus) validate(ends func(string) []int, ok func(string) bool) (droppe
 		}
 	}
 	c.items = items
+	var deep []deepShape
+	for _, d := range c.deep {
+		probe := c.prologue + d.head + strings.Repeat(d.open+d.sep, 3) + d.core + strings.Repeat(d.close+d.sep, 3)
+		if d.close == "" {
+			probe = c.prologue + d.head + strings.Repeat(d.open+d.sep, 3) + d.core
+		}
+		if ok(probe + d.tail + c.sep + c.epilogue) {
+			deep = append(deep, d)
+		} else {
+			dropped = append(dropped, "deep:"+d.open+d.core+d.close)
+		}
+	}
+	c.deep = deep
 	return dropped
 }
 
@@ -194,6 +269,9 @@ func tmParseAST(ctx context.Context, in string, rec *recorder) (string, error) {
 }
 
 var tmCorpus = &corpus{
+	deep: []deepShape{
+		{head: "zzdeep: ", open: "(", sep: " /* c */ ", core: "a", close: ")", tail: " ;"},
+	},
 	prologue: "language g(go);\n\nlang = \"g\"\npackage = \"a/b\"\neventBased = true\n\n:: lexer\n\nid: /[a-z]+/\nnum {int}: /[0-9]+/\n'+': /\\+/\n'(': /\\(/\n')': /\\)/\nws: /[ \\t]+/ (space)\n\n:: parser\n\n%input file;\n\n",
 	sep:      "\n",
 	items: []string{
@@ -314,6 +392,13 @@ func jsParseExpr(ctx context.Context, in string, rec *recorder) (string, error) 
 // statements chosen to make the lookahead sub-parsers frequent: arrow functions,
 // parametrised calls, `as`, function types, mapped types, tuple element names.
 var jsCorpus = &corpus{
+	deep: []deepShape{
+		{open: "{", sep: " /*c*/ ", core: "x;", close: "}"},
+		{open: "!", sep: "/*c*/", core: "x", close: "", tail: ";"},
+		{open: "(", sep: "/*c*/", core: "x", close: ")", tail: ";"},
+		{open: "[", sep: " /*c*/ ", core: "1", close: "]", tail: ";"},
+		{open: "-", sep: " /*c*/ ", core: "1", close: "", tail: ";"},
+	},
 	sep: "\n",
 	items: []string{
 		"var a = 1;",
@@ -426,6 +511,10 @@ func testParseDecl1(ctx context.Context, in string, rec *recorder) (string, erro
 }
 
 var testCorpus = &corpus{
+	deep: []deepShape{
+		{open: "{", sep: " /* c */ ", core: "decl2", close: "}"},
+		{open: "if(as)", sep: " /* c */ ", core: "decl2", close: ""},
+	},
 	sep: "\n",
 	items: []string{
 		"decl2",
@@ -517,7 +606,10 @@ func initTargets() {
 // registerGenerated plugs a freshly generated parser (see /verif/driver/genbatch.go) into
 // the target list. Its corpus is validated with the parser itself, like the shipped ones.
 func registerGenerated(name string, parse func(ctx context.Context, in string, ev func(t, flags, off, end int), eh func(line, off, end int) bool) error,
-	ends func(string) []int, c *corpus, hasEH, lookaheads bool) {
+	ends func(string) []int, c *corpus, deep [][6]string, hasEH, lookaheads bool) {
+	for _, d := range deep {
+		c.deep = append(c.deep, deepShape{d[0], d[1], d[2], d[3], d[4], d[5]})
+	}
 	p := func(ctx context.Context, in string, rec *recorder) (string, error) {
 		return "", parse(ctx, in, rec.Event, rec.ErrH)
 	}
